@@ -237,52 +237,55 @@ Proof.
 Qed.
 
 (* ================================================================ C06 *)
-Theorem atsp_checker_complete i acts : atsp_feasible i acts -> atsp_checker acts = true.
+Lemma atsp_cols_n i : atsp_wf i -> atsp_cols i = atsp_n i.
 Proof.
-  intros Hf. unfold atsp_checker. apply sorted_is_arange_iff.
-  pose proof (proj1 (visits_each_once_nodup _ _) Hf) as (Hl & _). rewrite Hl. exact Hf.
+  intros (H1 & Hl & Hr). unfold atsp_cols. destruct (acost i) as [|r m]; [cbn in Hl; lia|].
+  cbn [hd]. inversion Hr; assumption.
 Qed.
 
-(* what acceptance means for ANY action list: a permutation of 0..len-1 *)
-Theorem atsp_checker_sound_general acts : atsp_checker acts = true -> visits_each_once (length acts) acts.
-Proof. apply sorted_is_arange_iff. Qed.
-
-(* hence for action lists of the instance's length: accepted => every city exactly once *)
-Theorem atsp_checker_sound i acts : length acts = atsp_n i -> atsp_checker acts = true -> atsp_feasible i acts.
-Proof. intros Hl Hc. apply atsp_checker_sound_general in Hc. rewrite Hl in Hc. exact Hc. Qed.
-
-Corollary atsp_checker_rejects_missing i acts j :
-  length acts = atsp_n i -> (j < atsp_n i)%nat -> ~ In j acts -> atsp_checker acts = false.
+Lemma atsp_checker_iff i acts : atsp_wf i -> (atsp_checker i acts = true <-> atsp_feasible i acts).
 Proof.
-  intros Hl Hj Hn. apply not_true_iff_false. intros Hc. destruct (atsp_checker_sound i acts Hl Hc) as [Ho _].
+  intros Hwf. unfold atsp_checker, atsp_feasible. rewrite (atsp_cols_n i Hwf), andb_true_iff, Nat.eqb_eq, sorted_is_arange_iff. split.
+  - intros [Hl Hv]. rewrite Hl in Hv. exact Hv.
+  - intros Hv. pose proof (proj1 (visits_each_once_nodup _ _) Hv) as (Hl & _). split; [exact Hl | rewrite Hl; exact Hv].
+Qed.
+
+Theorem atsp_checker_complete i acts : atsp_wf i -> atsp_feasible i acts -> atsp_checker i acts = true.
+Proof. intros Hwf. apply (atsp_checker_iff i acts Hwf). Qed.
+
+(* accepted => every node exactly once; no hypothesis on the length of the action list: the checker establishes it *)
+Theorem atsp_checker_sound i acts : atsp_wf i -> atsp_checker i acts = true -> atsp_feasible i acts.
+Proof. intros Hwf. apply (atsp_checker_iff i acts Hwf). Qed.
+
+Corollary atsp_checker_rejects_wrong_length i acts : atsp_wf i -> length acts <> atsp_n i -> atsp_checker i acts = false.
+Proof.
+  intros Hwf Hl. apply not_true_iff_false. intros Hc. apply (atsp_checker_sound i acts Hwf), visits_each_once_nodup in Hc as (H & _). contradiction.
+Qed.
+
+Corollary atsp_checker_rejects_missing i acts j : atsp_wf i -> (j < atsp_n i)%nat -> ~ In j acts -> atsp_checker i acts = false.
+Proof.
+  intros Hwf Hj Hn. apply not_true_iff_false. intros Hc. destruct (atsp_checker_sound i acts Hwf Hc) as [Ho _].
   specialize (Ho j Hj). apply occ_not_In in Hn. lia.
 Qed.
 
-Corollary atsp_checker_rejects_duplicate acts j : (2 <= occ j acts)%nat -> atsp_checker acts = false.
+Corollary atsp_checker_rejects_duplicate i acts j : atsp_wf i -> (2 <= occ j acts)%nat -> atsp_checker i acts = false.
 Proof.
-  intros Hd. apply not_true_iff_false. intros Hc. apply atsp_checker_sound_general in Hc.
+  intros Hwf Hd. apply not_true_iff_false. intros Hc. apply (atsp_checker_sound i acts Hwf) in Hc.
   apply visits_each_once_nodup in Hc as (_ & Hnd & _). apply NoDup_occ_le1 with (x := j) in Hnd. lia.
 Qed.
 
-Corollary atsp_checker_rejects_out_of_range i acts a :
-  length acts = atsp_n i -> In a acts -> (atsp_n i <= a)%nat -> atsp_checker acts = false.
+Corollary atsp_checker_rejects_out_of_range i acts a : atsp_wf i -> In a acts -> (atsp_n i <= a)%nat -> atsp_checker i acts = false.
 Proof.
-  intros Hl Ha Hge. apply not_true_iff_false. intros Hc. destruct (atsp_checker_sound i acts Hl Hc) as [_ Hr].
+  intros Hwf Ha Hge. apply not_true_iff_false. intros Hc. destruct (atsp_checker_sound i acts Hwf Hc) as [_ Hr].
   specialize (Hr a Ha). lia.
 Qed.
 
-(* without the length hypothesis soundness FAILS: the checker compares with arange(len(actions)), never with the
-   number of cities, so a tour that simply omits the highest-numbered cities is accepted *)
-Theorem atsp_checker_truncated_refuted :
-  exists (i : atsp_inst) (acts : list nat),
-    atsp_wfb i = true /\ atsp_checker acts = true /\ ~ atsp_feasible i acts /\ ~ In 2%nat acts /\ (2 < atsp_n i)%nat.
-Proof.
-  exists {| agen_n := 3; acost := [[0; 3; 4]; [7; 0; 5]; [1; 2; 0]] |}, [1; 0]%nat.
-  split; [vm_compute; reflexivity|]. split; [vm_compute; reflexivity|]. split; [|split].
-  - intros Hf. apply atsp_feasibleb_ok in Hf. vm_compute in Hf. discriminate.
-  - intros [H|[H|[]]]; discriminate.
-  - vm_compute. lia.
-Qed.
+(* the witness of the repaired defect (fix 5d5f57a; known_findings.json: fixed): 3 nodes, actions [1; 0] used to be
+   accepted and is now rejected *)
+Example atsp_checker_truncated_now_rejected :
+  let i := {| agen_n := 3; acost := [[0; 3; 4]; [7; 0; 5]; [1; 2; 0]] |} in
+  atsp_wfb i = true /\ sorted_is_arange [1; 0]%nat = true /\ atsp_checker i [1; 0]%nat = false /\ atsp_checker i [1; 0; 2]%nat = true.
+Proof. vm_compute. auto. Qed.
 
 (* unfolded forms used by the Properties files *)
 Lemma atsp_mask_complete_unfolded :
@@ -294,9 +297,10 @@ Proof. intros i acts Hwf H1 H2. apply atsp_mask_complete; [exact Hwf | split; as
 
 Lemma atsp_checker_complete_unfolded :
   forall (i : atsp_inst) (acts : list nat),
+    atsp_wf i ->
     (forall j, (j < atsp_n i)%nat -> occ j acts = 1%nat) -> (forall a, In a acts -> (a < atsp_n i)%nat) ->
-    atsp_checker acts = true.
-Proof. intros i acts H1 H2. apply (atsp_checker_complete i). split; assumption. Qed.
+    atsp_checker i acts = true.
+Proof. intros i acts Hwf H1 H2. apply (atsp_checker_complete i acts Hwf). split; assumption. Qed.
 
 Lemma closed_len_three (d : nat -> nat -> Z) (a b c : nat) : closed_len d [a; b; c] = d a b + d b c + d c a.
 Proof. cbn. lia. Qed.
